@@ -72,8 +72,13 @@ def fieldidx(ctx, fi):
             if 'assign' in s and s['assign']['l'] == 0 and s['rv']['k'] == 'agg':
                 p = op_place(s['rv']['ops'][0])
                 for d in fi.defs().get(p['l'], []) if p else []:
-                    if d[2] == 'assign' and d[3]['k'] == 'agg' and d[3].get('agg') == 'tuple':
-                        oks.append((bb, d[3]['ops']))
+                    # the (index, node) pair: a tuple, or a small private struct with those two members
+                    if d[2] == 'assign' and d[3]['k'] == 'agg' and d[3].get('agg') in ('tuple', 'adt') and len(d[3]['ops']) == 2:
+                        ops = list(d[3]['ops'])
+                        tys = [fi.local_ty(op_place(o)['l']) if op_place(o) else ('usize' if 'const' in o and o['const'].get('ty') == 'usize' else '') for o in ops]
+                        if tys[1] == 'usize' and tys[0] != 'usize':
+                            ops.reverse()
+                        oks.append((bb, ops))
     ctx.ob('FIELDIDX', 'two-ok-exits', len(oks) == 2, short_loc(fi.span), '%d Ok((index, node)) exits (fast path and lookup path)' % len(oks), nontrivial=False)
     fast = slow = None
     for bb, ops in oks:
